@@ -267,6 +267,15 @@ fn emit_nodes(cx: &mut Ctx, out: &mut String, nodes: &[Node], ind: usize) {
                 emit_nodes(cx, &mut inner, items, ind + 1);
                 let ipad = "    ".repeat(ind + 1);
                 match ctx.as_str() {
+                    "if_chain" | "if_chain_long" => {
+                        // one `if` followed by 30 (160) `else if` links; the statements sit in the final `else`
+                        let mut t = format!("{pad}if (false) {{\n{pad}}}");
+                        for k in 0..(if ctx == "if_chain" { 30 } else { 160 }) {
+                            t.push_str(&format!(" else if ({k}u == 77u) {{\n{pad}}}"));
+                        }
+                        t.push_str(&format!(" else {{\n{inner}{pad}}}\n"));
+                        out.push_str(&t);
+                    }
                     "if_both" => {
                         let mut inner2 = String::new();
                         emit_nodes(cx, &mut inner2, items, ind + 1);
@@ -463,6 +472,10 @@ pub fn concretise(s: &Shader) -> String {
     }
     let mut cx = Ctx { s, tmp: 0 };
     for f in &s.functions {
+        if let Some(st) = &f.via_struct {
+            let _ = write!(out, "fn {}(v: {st}) -> {st} {{\n    return v;\n}}\n", f.name);
+            continue;
+        }
         let mut body = String::new();
         emit_nodes(&mut cx, &mut body, &f.body, 1);
         let pstr;
